@@ -132,6 +132,19 @@ def read_meta(path):
     return {}
 
 
+def oracle_batch(ver, requests):
+    """ask reference interpreter `ver` a batch of questions (oracle/server.py); returns the list of answers"""
+    cmd = [interp(ver), os.path.join(VERIF, "oracle", "ref_main.py"), "server"]
+    data = "\n".join(json.dumps(r) for r in requests) + "\n"
+    p = subprocess.run(cmd, input=data.encode("ascii"), env=base_env(host=False), stdout=subprocess.PIPE, stderr=subprocess.PIPE, cwd=VERIF)
+    if p.returncode != 0:
+        raise RuntimeError("oracle server %s failed: %s" % (ver, p.stderr.decode("utf-8", "replace")[-1500:]))
+    lines = [l for l in p.stdout.decode("ascii").splitlines() if l.strip()]
+    if len(lines) != len(requests):
+        raise RuntimeError("oracle server %s answered %d of %d requests" % (ver, len(lines), len(requests)))
+    return [json.loads(l) for l in lines]
+
+
 # --------------------------------------------------------------------- worker ctx
 class Ctx(object):
     """collects what one worker saw"""
